@@ -187,3 +187,27 @@ func SendPanics() (out string) {
 	c <- 1
 	return "no panic"
 }
+
+// MapMutate ranges over a map while deleting, re-creating and adding keys; what
+// is produced for those keys is up to Go (here: up to the tape).
+func MapMutate() string {
+	m := map[string]int{"a": 1, "b": 2, "c": 3, "d": 4}
+	out := ""
+	for k := range m {
+		out += k
+		if k == "a" || k == "d" {
+			// delete the other end and create it again
+			other := "d"
+			if k == "d" {
+				other = "a"
+			}
+			if _, ok := m[other]; ok {
+				delete(m, other)
+				m[other] = 9
+			}
+			m["new"+k] = 1
+		}
+		delete(m, "b")
+	}
+	return out
+}
